@@ -173,6 +173,8 @@ def stage(prop, spec, scratch=None):
     lib = os.path.join(scratch, "src", "lib.rs")
     with open(lib) as f:
         t = f.read()
+    # the Vec::push stand-in (env/mod.rs) must be generic over the allocator parameter
+    t = "#![cfg_attr(kani, feature(allocator_api))]\n" + t
     t += (
         "\n// ---- injected by /verif/tools/vlib.py (scratch copy only) ----\n"
         '#[cfg(any(kani, verif_replay))]\n#[path = "%s/shim/vk.rs"]\n#[macro_use]\npub(crate) mod verif_vk;\n'
@@ -204,7 +206,7 @@ def stage(prop, spec, scratch=None):
         with open(p, "w") as f:
             f.write(t)
     nre = 0
-    for rel in spec.get("shim_files", []):
+    for rel in dict.fromkeys(spec.get("shim_files", [])):
         p = os.path.join(scratch, rel)
         if not os.path.exists(p):
             continue
@@ -287,7 +289,7 @@ class MemWatch(threading.Thread):
 
 def run_kani(scratch, harnesses, features=None, jobs=None, harness_timeout=600,
              mem_mb=12000, logpath=None, playback=False, target_tag="main", extra=None,
-             overall_timeout=None):
+             overall_timeout=None, memcmp_unwind=None, cbmc_args=None):
     """Run `cargo kani` on the staged copy for the given fully-qualified harness names.
     Returns (returncode, output_text, memwatch)."""
     jobs = jobs or min(len(harnesses), max(1, NCPU - 2))
@@ -310,7 +312,12 @@ def run_kani(scratch, harnesses, features=None, jobs=None, harness_timeout=600,
     # CBMC models memcmp as a byte loop; GUID / GuidPrefix comparisons need up to 16
     # iterations.  Naming that one loop here lets the harnesses keep a small global unwind
     # bound (every symbolic-trip-count loop is unrolled up to the global bound).  Must be last.
-    cmd += ["--cbmc-args", "--unwindset", "memcmp.0:18"]
+    mu = memcmp_unwind or int(os.environ.get("VERIF_MEMCMP", "0") or 0) or 18
+    cmd += ["--cbmc-args", "--unwindset", f"memcmp.0:{mu}"]
+    # further CBMC flags: table key "cbmc_args" / env VERIF_CBMC_EXTRA (space separated)
+    cmd += list(cbmc_args or [])
+    if os.environ.get("VERIF_CBMC_EXTRA"):
+        cmd += os.environ["VERIF_CBMC_EXTRA"].split()
     env = dict(ENV_BASE)
     p = subprocess.Popen(cmd, cwd=scratch, env=env, stdout=subprocess.PIPE,
                          stderr=subprocess.STDOUT, text=True, start_new_session=True)
